@@ -374,4 +374,71 @@ theorem obsEq_of_inv (topo : List Nat) (maxRef : Nat) {s t : St} (hs : Inv s) (h
   · intro n; rw [hs.res n, ht.res n, resSum_perm hp n]
   · simp only [availCPUs, href]
 
+
+/-! ### the exclusive-policy marker (last writer) -/
+
+theorem markOf_append_map (cpus : List Nat) (e : Nat) (m : List (Nat × Nat)) (c : Nat) :
+    markOf (cpus.map (fun x => (x, e)) ++ m) c = if c ∈ cpus then e else markOf m c := by
+  induction cpus with
+  | nil => simp
+  | cons x xs ih =>
+    simp only [List.map_cons, List.cons_append, markOf, ih, List.mem_cons]
+    by_cases h : x = c
+    · simp [h]
+    · have : ¬ c = x := fun e => h e.symm
+      simp [h, this]
+
+theorem update_fresh_pods_mark (topo : List Nat) (s : St) (a : PodAlloc) (h : a.uid ∉ s.pods.map (·.uid)) :
+    (update topo s a).pods = a :: s.pods ∧
+    (update topo s a).mark = a.cpus.map (fun c => (c, a.excl)) ++ s.mark := by
+  have hnone := (findPod_none_iff a.uid s.pods).2 h
+  have hrel : release topo s a.uid = s := by unfold release; rw [hnone]
+  unfold update
+  rw [hrel]
+  unfold addPod
+  rw [hnone]
+  exact ⟨rfl, rfl⟩
+
+/-- all holders of a CPU agree on the policy ⇒ the marker is that policy -/
+def MarkInv (s : St) : Prop :=
+  ∀ c e, (∃ p ∈ s.pods, c ∈ p.cpus) → (∀ p ∈ s.pods, c ∈ p.cpus → p.excl = e) → markOf s.mark c = e
+
+theorem markInv_update_fresh (topo : List Nat) (s : St) (a : PodAlloc) (h : a.uid ∉ s.pods.map (·.uid))
+    (hs : MarkInv s) : MarkInv (update topo s a) := by
+  obtain ⟨hp, hm⟩ := update_fresh_pods_mark topo s a h
+  intro c e hex hall
+  rw [hp] at hex hall
+  rw [hm, markOf_append_map]
+  by_cases hc : c ∈ a.cpus
+  · rw [if_pos hc]; exact hall a (by simp) hc
+  · rw [if_neg hc]
+    apply hs c e
+    · obtain ⟨p, hpm, hpc⟩ := hex
+      simp only [List.mem_cons] at hpm
+      rcases hpm with rfl | hpm
+      · exact absurd hpc hc
+      · exact ⟨p, hpm, hpc⟩
+    · intro p hpm hpc; exact hall p (by simp [hpm]) hpc
+
+theorem foldl_update_fresh (topo : List Nat) (l : List PodAlloc) (s : St)
+    (hl : (l.map (·.uid)).Nodup) (hd : ∀ a ∈ l, a.uid ∉ s.pods.map (·.uid)) (hs : MarkInv s) :
+    MarkInv (l.foldl (update topo) s) ∧ (l.foldl (update topo) s).pods = l.reverse ++ s.pods := by
+  induction l generalizing s with
+  | nil => exact ⟨hs, by simp⟩
+  | cons a as ih =>
+    simp only [List.map_cons, List.nodup_cons] at hl
+    have ha := hd a (by simp)
+    obtain ⟨hp, _⟩ := update_fresh_pods_mark topo s a ha
+    have := ih (update topo s a) hl.2
+      (by
+        intro b hb
+        rw [hp]
+        simp only [List.map_cons, List.mem_cons, not_or]
+        refine ⟨fun e => hl.1 ?_, hd b (by simp [hb])⟩
+        rw [← e]; exact List.mem_map.2 ⟨b, hb, rfl⟩)
+      (markInv_update_fresh topo s a ha hs)
+    simp only [List.foldl_cons]
+    refine ⟨this.1, ?_⟩
+    rw [this.2, hp]; simp
+
 end KoordVerif.C19
